@@ -85,9 +85,14 @@ pub struct Ctx {
     pub broadcast: Vec<String>,
     pub canary: bool,
     pub opts: Value,
+    pub counter: usize,
 }
 
 impl Ctx {
+    pub fn fresh(&mut self) -> usize {
+        self.counter += 1;
+        self.counter
+    }
     pub fn used(&mut self, r: &str) {
         *self.rule_uses.entry(r.to_string()).or_insert(0) += 1;
     }
@@ -141,6 +146,7 @@ fn main() {
         broadcast: spec["broadcast"].as_array().map(|a| a.iter().filter_map(|v| v.as_str().map(String::from)).collect()).unwrap_or_default(),
         canary: spec["canary"].as_bool().unwrap_or(false),
         opts: spec["opts"].clone(),
+        counter: 0,
     };
 
     let mut out = String::new();
